@@ -207,9 +207,20 @@ package guardiand
 // request queue, and each watcher is constructed with the queue registered under the chain id
 // it is constructed for.
 //@ func runNode(cmd *cobra.Command, args []string)
-//@   props C17
+//@   props C17 C01 C03 C10 C12 C15
 //@   assume-contract
 //@   fresh-elements chainObsvReqC
 //@   wiring handleReobservationRequests: $arg3 $arg4 == obsvReqC chainObsvReqC
 //@   wiring ethereum.NewEthWatcher: $arg7 == chainObsvReqC[$arg4]
 //@   wiring alephium.NewAlephiumWatcher: $arg6 == chainObsvReqC[vaa.ChainIDAlephium]
+// the same for the other properties' hand-offs: the processor, the gossip layer and the admin
+// service are given the queues by the names their contracts speak about (one queue per role),
+// the watchers feed the processor's message and set queues, Ethereum is read without extra
+// confirmations (finalized heads) and BSC with them
+//@   wiring processor.NewProcessor: $arg1 $arg2 $arg3 $arg4 $arg5 $arg6 $arg7 $arg8 $arg9 $arg10 == db lockC setC sendC obsvC obsvReqSendC injectC signedInC guardianSigner gst
+//@   wiring processor.NewProcessor: $arg13 $arg14 == governanceChainId governanceEmitterAddress
+//@   wiring p2p.Run: $arg0 $arg1 $arg2 $arg3 $arg4 $arg6 $arg7 $arg12 == obsvC obsvReqC obsvReqSendC sendC signedInC guardianSigner gst *disableHeartbeatVerify
+//@   wiring adminServiceRunnable: $arg2 $arg3 $arg4 $arg5 $arg6 $arg7 $arg8 == injectC signedInC obsvReqSendC db gst governanceChainId governanceEmitterAddress
+//@   wiring publicrpcServiceRunnable: $arg2 $arg3 $arg4 $arg5 == db gst governanceChainId governanceEmitterAddress
+//@   wiring ethereum.NewEthWatcher: $arg5 $arg6 == lockC setC
+//@   wiring alephium.NewAlephiumWatcher: $arg4 == lockC
